@@ -53,7 +53,7 @@ fn strs(v: &[&str]) -> Vec<String> {
     v.iter().map(|s| s.to_string()).collect()
 }
 
-const E1_RULE: &str = "seeded worlds (2-4 EOAs, 1-6 generated contracts with calldata-guarded snippets, CREATE/CREATE2 factories, 13 specs, layer stack and F7 knobs drawn per run) and histories of 1-4 transactions on one live Evm with the monitor inspector; faults: F1 database error at a drawn call index, F2 out-of-gas through low gas limits / constant call gas, F3 inspector short-circuits; a case is non-trivial if at least one transaction executed and distinct by the hash of (spec, outcome classes, monitor event sequence)";
+const E1_RULE: &str = "seeded worlds (2-4 EOAs, 1-6 generated contracts with calldata-guarded snippets, CREATE/CREATE2 factories, 13 specs, layer stack and F7 knobs drawn per run) and histories of 1-4 transactions on one live Evm with the monitor inspector; faults: F1 database error at a drawn call index, F2 out-of-gas through low gas limits / constant call gas, F3 inspector short-circuits, F3b the inspector ends the running frame from step_end after a drawn instruction, F3c the inspector lowers a frame's gas limit inside its hook; values that snippets read flow on into storage / transient storage / memory; a case is non-trivial if at least one transaction executed and distinct by the hash of (spec, outcome classes, monitor event sequence)";
 
 pub fn check(prop: &str, tier: &str) -> i32 {
     let seed = seed_from_env();
@@ -111,7 +111,7 @@ pub fn check(prop: &str, tier: &str) -> i32 {
             }
         }
         "C15" | "C16" | "C17" | "C18" | "C19" => {
-            rep.rule = "seeded histories of 1-6 transition groups (0-3 real EVM transactions each over a generated world with CREATE2 factories, self-destructs, storage writes, plus increment_balances / drain_balances) committed into a State with bundle tracking over the simulated disk; the scheduler decides merge points (one per group), flush points (take_bundle + changeset applied to the durable disk), crashes (Evm and State dropped, rebuilt over the durable disk, lost groups re-executed), the split point for extend / preloaded bundle and database faults (inside a transaction, inside increment_balances); oracles: reads vs reference plain state after every group and State vs CacheDB results (C15), pre-state + changeset(Yes/No) = post-state (C16), revert walk group by group and bundle.revert(j) for every j (C17), A.extend(B) / take_n_reverts / prepend_state vs the monolithic bundle (C18), State with a preloaded bundle vs State over the merged disk (C19); distinct by the hash of (spec, execution results)".into();
+            rep.rule = "seeded histories of 1-6 transition groups (0-3 real EVM transactions each over a generated world with CREATE2 factories, self-destructs, storage writes, plus increment_balances / drain_balances) committed into a State with bundle tracking over the simulated disk; the scheduler decides merge points (one per group), flush points (take_bundle + changeset applied to the durable disk), crashes (Evm and State dropped, rebuilt over the durable disk, lost groups re-executed), the split point for extend / preloaded bundle and database faults (inside a transaction, inside increment_balances); oracles: reads vs reference plain state after every group, touched empty accounts removed (exactly, EIP-161) and State vs CacheDB results (C15), pre-state + changeset(Yes/No) = post-state (C16), revert walk group by group and bundle.revert(j) for every j (C17), A.extend(B) / take_n_reverts / prepend_state vs the monolithic bundle (C18), State with a preloaded bundle vs State over the merged disk (C19); distinct by the hash of (spec, execution results)".into();
             rep.real_components = vec![
                 "revm::db::State, CacheState, CacheAccount, TransitionState, TransitionAccount, BundleState, BundleAccount, Reverts, AccountStatus (unmodified)".into(),
                 "revm::Evm producing the committed EvmState of every transaction; CacheDB for the twin".into(),
